@@ -32,7 +32,7 @@ REPO_SRC = os.environ.get("VERIF_REPO_SRC", "/repo/src")
 REPO_DIR = os.path.dirname(REPO_SRC.rstrip("/"))
 PYTHON = "/venv/bin/python"
 KNOWN_FILE = os.path.join(VERIF_DIR, "KNOWN_FINDINGS.txt")
-EVIDENCE_DIR = os.path.join(VERIF_DIR, "evidence")
+EVIDENCE_DIR = os.environ.get("VERIF_EVIDENCE_DIR") or os.path.join(VERIF_DIR, "evidence")
 REPLAY_DIR = os.path.join(VERIF_DIR, "replays")
 
 EXIT_OK, EXIT_VIOLATION, EXIT_HARNESS = 0, 1, 2
@@ -122,7 +122,7 @@ def pinned_env(extra=None, hashseed="0"):
         "VERIF_REPO_SRC": REPO_SRC,
     }
     for k in ("VERIF_SEED", "VERIF_TIER", "VERIF_BUDGET_S", "VERIF_SCRATCH", "VERIF_WORKERS",
-              "VERIF_RUNS", "VERIF_NO_CONFIRM", "VERIF_NO_SELFTEST", "VERIF_DEBUG", "TMPDIR"):
+              "VERIF_RUNS", "VERIF_EVIDENCE_DIR", "VERIF_NO_CONFIRM", "VERIF_NO_SELFTEST", "VERIF_DEBUG", "TMPDIR"):
         if k in os.environ:
             env[k] = os.environ[k]
     if extra:
@@ -298,8 +298,10 @@ def _work_chunk(pid, batch_seed, indices, tier, want_digests, per_run_timeout, m
         "evaluations": 0, "steps": 0, "probes": Counter(), "faults": Counter(),
         "nontrivial": set(), "states": set(), "trans": set(), "populations": Counter(),
         "violations": {}, "harness_errors": [], "digests": {}, "samples": [],
-        "extra": Counter(), "outcomes": Counter(),
+        "extra": Counter(), "outcomes": Counter(), "raw_violations": Counter(), "unminimised": Counter(),
     }
+    min_per_cls = Counter()
+    max_min_per_cls = getattr(engine, "MIN_PER_CLS", 3)
     for i in indices:
         faulthandler.dump_traceback_later(per_run_timeout, exit=True)
         try:
@@ -329,6 +331,11 @@ def _work_chunk(pid, batch_seed, indices, tier, want_digests, per_run_timeout, m
                                    "ops": trace["ops"][:12], "ops_total": len(trace["ops"])})
         v = res.get("violation")
         if v:
+            out["raw_violations"][v.get("cls", "?")] += 1
+            if min_per_cls[v.get("cls", "?")] >= max_min_per_cls:
+                out["unminimised"][v.get("cls", "?")] += 1
+                continue
+            min_per_cls[v.get("cls", "?")] += 1
             faulthandler.dump_traceback_later(per_run_timeout * 20 + 120, exit=True)
             try:
                 mt, mv = minimise(engine, trace, v,
@@ -352,6 +359,8 @@ def _work_chunk(pid, batch_seed, indices, tier, want_digests, per_run_timeout, m
     out["extra"] = dict(out["extra"])
     out["populations"] = dict(out["populations"])
     out["outcomes"] = dict(out["outcomes"])
+    out["raw_violations"] = dict(out["raw_violations"])
+    out["unminimised"] = dict(out["unminimised"])
     return out
 
 
@@ -384,7 +393,9 @@ def run_batch(pid, tier, batch_seed, budget_s=None, n_runs=None):
         "evaluations": 0, "steps": 0, "probes": Counter(), "faults": Counter(), "extra": Counter(),
         "nontrivial": set(), "states": set(), "trans": set(), "populations": Counter(), "outcomes": Counter(),
         "violations": {}, "harness_errors": [], "digests": {}, "samples": [],
+        "raw_violations": Counter(), "unminimised": Counter(),
     }
+    known = load_known(pid)
     deadline = t0 + budget_s
     budget_exhausted = False
     next_index = 0
@@ -423,7 +434,8 @@ def run_batch(pid, tier, batch_seed, budget_s=None, n_runs=None):
                 part = done.result()
                 _merge(agg, part)
                 if time.time() < deadline:
-                    if len(agg["violations"]) < 24:
+                    # stop exploring as soon as a violation that is not a listed known finding has been found
+                    if all(sig in known for sig in agg["violations"]):
                         f = more()
                         if f is not None:
                             pending.add(f)
@@ -456,18 +468,32 @@ def run_batch(pid, tier, batch_seed, budget_s=None, n_runs=None):
             harness_fail = f"determinism self-test could not run: {e!r}"
 
     # ---- classify violations
-    known = load_known(pid)
     os.makedirs(REPLAY_DIR, exist_ok=True)
     unknown, known_hit = [], Counter()
+    items = []
     for sig, rec in sorted(agg["violations"].items()):
         trace = rec["trace"]
         path = os.path.join(REPLAY_DIR, f"{pid}-{hashlib.blake2b(sig.encode(), digest_size=6).hexdigest()}.json")
         with open(path, "w") as f:
             json.dump(trace, f, indent=1, sort_keys=True, default=_default)
-        confirmed = True
-        if not os.environ.get("VERIF_NO_CONFIRM"):
-            confirmed = _confirm_in_fresh_process(pid, path, sig)
-        if not confirmed:
+        items.append((sig, path, rec))
+    # confirm every known-signature hit and up to MAX_CONFIRM unknown ones in fresh processes (in parallel)
+    max_confirm = 6
+    to_confirm = [it for it in items if it[0] in known] + [it for it in items if it[0] not in known][:max_confirm]
+    confirmed = {}
+    if os.environ.get("VERIF_NO_CONFIRM"):
+        confirmed = {it[0]: True for it in to_confirm}
+    elif to_confirm:
+        from concurrent.futures import ThreadPoolExecutor
+        with ThreadPoolExecutor(max_workers=min(8, len(to_confirm))) as tp:
+            for (sig, path, rec), ok in zip(to_confirm, tp.map(lambda it: _confirm_in_fresh_process(pid, it[1], it[0]), to_confirm)):
+                confirmed[sig] = ok
+    unconfirmed_extra = 0
+    for sig, path, rec in items:
+        if sig not in confirmed:
+            unconfirmed_extra += 1
+            continue
+        if not confirmed[sig]:
             harness_fail = (harness_fail or "") + f"\nviolation sig={sig} did not reproduce in a fresh process (replay={path})"
             continue
         if sig in known:
@@ -475,6 +501,9 @@ def run_batch(pid, tier, batch_seed, budget_s=None, n_runs=None):
             print(f"KNOWN-FINDING: property={pid} {known[sig]} [sig={sig} hits={rec['count']} sample={path}]")
         else:
             unknown.append((sig, path, rec))
+    if unconfirmed_extra:
+        print(f"[lian-sim] {unconfirmed_extra} further distinct violation signature(s) were found and written to {REPLAY_DIR} "
+              f"but not re-confirmed (limit {max_confirm})")
     for sig, path, rec in unknown:
         v = rec["trace"].get("violation", {})
         print(f"VIOLATION property={pid} replay={path}")
@@ -512,6 +541,8 @@ def run_batch(pid, tier, batch_seed, budget_s=None, n_runs=None):
         "selftest_runs": selftest["runs"],
         "selftest_mismatches": selftest["mismatches"],
         "known_findings_hit": dict(known_hit),
+        "violating_runs_by_class": dict(agg["raw_violations"]),
+        "violating_runs_not_minimised": dict(agg["unminimised"]),
         "budget_exhausted": budget_exhausted,
         "workers": workers,
         "harness_error": harness_fail,
@@ -548,7 +579,7 @@ def run_batch(pid, tier, batch_seed, budget_s=None, n_runs=None):
 def _merge(agg, part):
     agg["evaluations"] += part["evaluations"]
     agg["steps"] += part["steps"]
-    for k in ("probes", "faults", "extra", "populations", "outcomes"):
+    for k in ("probes", "faults", "extra", "populations", "outcomes", "raw_violations", "unminimised"):
         agg[k].update(part[k])
     for k in ("nontrivial", "states", "trans"):
         agg[k] |= part[k]
